@@ -197,6 +197,68 @@ def parse_sanitizer_text(text, repo, res=None, idioms=None):
     return ded
 
 
+_VG_KIND = [
+    ("Conditional jump or move depends on uninitialised value", "uninitialised-condition"),
+    ("Use of uninitialised value", "uninitialised-use"),
+    ("Syscall param", "uninitialised-syscall-param"),
+    ("Invalid read of size", "invalid-read"),
+    ("Invalid write of size", "invalid-write"),
+    ("Invalid free", "invalid-free"),
+    ("Mismatched free", "mismatched-free"),
+    ("Source and destination overlap", "overlap"),
+    ("Argument", "fishy-argument"),
+    ("Process terminating with default action of signal", None),
+]
+_VG_FRAME = re.compile(r"^==\d+==\s+(?:at|by) 0x[0-9A-Fa-f]+: (\S+) \(([^)]*)\)")
+
+
+def parse_valgrind_text(text, repo):
+    """memcheck reports in a chunk of stderr -> list of (key, detail); key = memcheck:<kind>:<innermost frame in the tree>"""
+    out, seen = [], set()
+    lines = text.split("\n")
+    i = 0
+    while i < len(lines):
+        m = re.match(r"^==\d+== (\S.*)$", lines[i])
+        kind = None
+        if m:
+            for pat, k in _VG_KIND:
+                if m.group(1).startswith(pat):
+                    kind = k
+                    break
+        if not kind:
+            i += 1
+            continue
+        frames = []
+        j = i + 1
+        while j < len(lines):
+            fm = _VG_FRAME.match(lines[j])
+            if not fm:
+                break
+            frames.append((fm.group(1), fm.group(2)))
+            j += 1
+        fn = None
+        srcs = set(os.path.basename(x) for x in os.listdir(os.path.join(repo, "src"))) if os.path.isdir(os.path.join(repo, "src")) else set()
+        for f, loc in frames:
+            base = loc.split(":")[0]
+            if base in srcs or base == "proxyd.c":
+                fn = f
+                break
+        if fn is None:
+            # no frame of the tree under test: a harness frame makes it the harness' problem, anything else
+            # (dynamic loader, libc start-up, iconv module loading) is not what the check is about
+            hf = [f for f, loc in frames if loc.split(":")[0].startswith("c") and loc.split(":")[0].endswith((".c", ".h")) and re.match(r"c\d\d_", loc.split(":")[0])]
+            if not hf:
+                i = j
+                continue
+            fn = "harness:" + hf[0]
+        key = "memcheck:%s:%s" % (kind, fn)
+        if key not in seen:
+            seen.add(key)
+            out.append((key, m.group(1).strip()[:200] + " | " + " < ".join("%s (%s)" % f for f in frames[:6])))
+        i = j
+    return out
+
+
 def split_by_case(stderr_text):
     """-> list of (case_idx or None, text)"""
     parts = re.split(r"^@case (-?\d+)\n", stderr_text, flags=re.M)
@@ -248,6 +310,9 @@ class Worker:
             cmd += ["--budget", str(b)]
         for k, v in (self.job.get("params") or {}).items():
             cmd += ["--" + k, str(v[self.tier] if isinstance(v, dict) else v)]
+        if self.job.get("valgrind"):
+            cmd = ["valgrind", "--tool=memcheck", "-q", "--track-origins=yes", "--leak-check=no", "--num-callers=14",
+                   "--error-limit=no", "--undef-value-errors=yes"] + cmd
         self.cmd = cmd
         ef = open(self.errp, "ab")
         self.proc = subprocess.Popen(cmd, stdout=ef, stderr=ef, env=self.env, cwd=self.workdir)
@@ -290,6 +355,9 @@ def run_job(spec, job, tier, seed, res, repo, only_case=None, verbose=False):
                 cmd += ["--" + k, str(v[tier] if isinstance(v, dict) else v)]
             outp = os.path.join(workdir, "replay.jsonl")
             cmd += ["--out", outp]
+            if job.get("valgrind"):
+                cmd = ["valgrind", "--tool=memcheck", "-q", "--track-origins=yes", "--leak-check=no", "--num-callers=14",
+                       "--error-limit=no"] + cmd
             log("replay: " + " ".join(cmd))
             p = subprocess.run(cmd, env=env, cwd=workdir, stderr=subprocess.PIPE, text=True, errors="replace")
             sys.stdout.write(p.stderr[-6000:])
@@ -297,6 +365,12 @@ def run_job(spec, job, tier, seed, res, repo, only_case=None, verbose=False):
             for case, text in split_by_case(p.stderr):
                 for k, d in parse_sanitizer_text(text, repo, res, idioms):
                     res.violation(k, d, job=job["name"], case=case)
+                if job.get("valgrind"):
+                    for k, d in parse_valgrind_text(text, repo):
+                        if k.startswith("memcheck:uninitialised") and not job.get("uninitialised_is_violation"):
+                            log("  (informational) %s %s" % (k, d))
+                            continue
+                        res.violation(k, d, job=job["name"], case=case)
             if p.returncode not in (0, 96, 97, 98) and not res.violations:
                 res.violation("crash:exit%d" % p.returncode, "replay exited with %d" % p.returncode, job=job["name"], case=only_case)
             res.cases += 1
@@ -359,6 +433,16 @@ def run_job(spec, job, tier, seed, res, repo, only_case=None, verbose=False):
                 for k, d in parse_sanitizer_text(seg, repo, res, idioms):
                     res.violation(k, d, job=job["name"], case=case, stderr=seg[-3000:])
                     had.add(case)
+                if job.get("valgrind"):
+                    for k, d in parse_valgrind_text(seg, repo):
+                        if k.startswith("memcheck:uninitialised") and not job.get("uninitialised_is_violation"):
+                            # reads of uninitialised memory inside an object: reported in evidence, a violation
+                            # only where the property speaks about them
+                            res.count("informational:" + k)
+                            continue
+                        res.violation(k, d, job=job["name"], case=case, stderr=seg[-3000:])
+                        had.add(case)
+                    res.count("memcheck_cases_scanned")
             # deaths that left neither a viol line nor a sanitizer report
             for (w2, rc, idx) in fatal_events:
                 if w2 is not wk or rc in (96, 97, 98, 2, 3):
